@@ -2,7 +2,8 @@
    Only statements; every proof is [exact <lemma>] or a closed computation on a witness. *)
 From Coq Require Import List ZArith Bool Arith.
 From KV Require Import Model.ConnMux Model.TransportPool
-  Proofs.ConnMuxBase Proofs.ConnMuxProofs Proofs.ConnMuxOwn Proofs.TransportPoolProofs Proofs.TransportPoolOwn.
+  Proofs.ConnMuxBase Proofs.ConnMuxProofs Proofs.ConnMuxOwn Proofs.TransportPoolProofs Proofs.TransportPoolOwn
+  Model.BufferPool Proofs.BufferPoolProofs.
 Import ListNotations.
 Local Open Scope Z_scope.
 
@@ -185,6 +186,44 @@ Theorem C06_transport_split_aligned : forall s subs,
   forall i r, nth_error subs i = Some r -> nth_error (split_results s subs) i = Some (sub_result s r).
 Proof. intros s subs. split; [apply split_results_length|intros i r; apply split_results_nth]. Qed.
 Print Assumptions C06_transport_split_aligned.
+
+(* A connection handed back to the pool sits at a frame boundary: its run loop is waiting, its
+   last exchange ended without error, and what is unread on it is a sequence of WHOLE frames, each
+   the broker's answer to a request that connection carried (never the rest of a frame).  The
+   model is frame-level, so the byte side of this — ReadResponse consumes exactly the frame, in
+   particular the truncated tail of a fetch record set — is held on the implementation by harness
+   op trtail (every follower on the re-used connection gets its own answer). *)
+Theorem C06_released_at_frame_boundary : forall ls s c, prun pinit ls = Some s -> In c (idle s) ->
+  cst (cn s c) = CLoop /\ lastok (cn s c) = true /\
+  forall f, In f (cwire (cn s c)) ->
+    exists k, fid f = wrap32 k /\ lookup_ord k (bsent (cn s c)) = Some (fown f).
+Proof. exact released_at_frame_boundary. Qed.
+Print Assumptions C06_released_at_frame_boundary.
+
+(* ======================= the decompression buffer pool (Model/BufferPool.v) ======================= *)
+
+(* As long as every acquired buffer is released exactly once (the run uses no ReleaseAgain), two
+   live readers never hold the same pooled buffer — whatever the interleaving of acquires and
+   releases of readers on any number of Conns.  Obligation on the code: releaseBuffer of
+   messageSetReader.decompressed happens once per reader life (Batch.close resets the field);
+   harness op poolx checks the consequence on the implementation. *)
+Theorem C06_pool_buffer_exclusive : forall ls s,
+  forallb disciplined ls = true -> brun binit ls = Some s ->
+  forall o1 o2 b, In (o1, b) (bheld s) -> In (o2, b) (bheld s) -> o1 = o2.
+Proof. exact buffer_exclusive. Qed.
+Print Assumptions C06_pool_buffer_exclusive.
+
+(* ... and one extra release is enough to break it: reader 1 gives its buffer back twice, readers
+   2 and 3 then decompress into the same buffer (the seeded change C06-13) *)
+Example pool_double_release_shares_a_buffer :
+  match brun binit [Acquire 1; Release 1; ReleaseAgain 1 0; Acquire 2; Acquire 3] with
+  | Some s => match holds 2 (bheld s), holds 3 (bheld s) with
+              | Some a, Some b => Nat.eqb a b
+              | _, _ => false
+              end
+  | None => false
+  end = true.
+Proof. vm_compute. reflexivity. Qed.
 
 (* ======================= non-vacuity ======================= *)
 
